@@ -38,6 +38,8 @@ func init() {
 			{Name: "typeset", Run: runTypeset},
 			{Name: "slicelen", Run: runSliceLen},
 			{Name: "setnames", Run: runSetNames},
+			{Name: "gonumber", Run: runGoNumber},
+			{Name: "utf16store", Run: runUTF16Store},
 			{Name: "sliceref", Run: brig.RunSliceRef},
 			{Name: "mapkeys", Run: brig.RunMapKeys},
 			{Name: "kindtwins", Run: func(r *engine.Run) { brig.RunKindTwins(r, false) }},
